@@ -378,4 +378,72 @@ def modelledRows : List (String × RowClass) :=
     ("routers/legacy.(*Router).node", .lazyCtor),  -- part of routerCell: NewRouter creates the node
     ("openapi3gen.(*Generator).NewSchemaRefForValue", .outParam) ]  -- caller-owned output map
 
+/-! ## package-level variables the concurrent code reads (table `Gen.sharedGlobals`) -/
+
+inductive GKind | read | write | addr
+  deriving DecidableEq, Repr
+
+/-- one access of a package-level variable: in which function, of which kind, under which mutex ("" none,
+    "syncMap" a method of the sync.Map itself, "once" inside Once.Do), and whether the function is reachable from
+    the concurrent entry points -/
+structure GAccess where
+  fn : String
+  kind : GKind
+  guard : String
+  reachable : Bool
+  deriving DecidableEq, Repr
+
+structure GlobalRow where
+  pkg : String
+  name : String
+  kind : String
+  selfSync : Bool           -- the variable IS a synchronisation object (sync.Map, mutex, once, atomic)
+  accesses : List GAccess   -- every access outside `init` functions, in all functions of the library
+  deriving DecidableEq, Repr
+
+structure SyncObject where
+  name : String
+  kind : String
+  protects : List String    -- the package-level variables accessed while it is held
+  deriving DecidableEq, Repr
+
+/-- The functions that change the library's process-wide registries. The property's quantifier is over
+    FindRoute / ValidateRequest / ValidateResponse / VisitJSON / schema generation: these are NOT among the
+    concurrent calls (openapi3filter documents the body-decoder registry as not thread-safe for registration).
+    A writer of a plainly read registry that is not listed here breaks `globals_consistent`. -/
+def registrationAPIs : List String :=
+  [ "openapi3.DefineStringFormatValidator", "openapi3.DefineNumberFormatValidator",
+    "openapi3.DefineIntegerFormatValidator", "openapi3.RegisterArrayUniqueItemsChecker",
+    "openapi3filter.RegisterBodyDecoder", "openapi3filter.UnregisterBodyDecoder" ]
+
+/-- all accesses under one and the same mutex -/
+def oneGuard (r : GlobalRow) : Bool :=
+  match r.accesses with
+  | [] => false
+  | a :: as => a.guard != "" && a.guard != "once" && as.all (fun b => b.guard == a.guard)
+
+/-- never written anywhere (the address may be handed out: `&minInt8` stored in a generated schema) -/
+def neverWritten (r : GlobalRow) : Bool := r.accesses.all (fun a => a.kind != .write)
+
+/-- plain reads next to a registration API: the reachable code only reads (or re-initialises under a nil guard, a
+    row of `Gen.sharedWrites` named in `lazy`), and every other writer is a registration function -/
+def registryOK (lazy : List String) (r : GlobalRow) : Bool :=
+  r.accesses.all (fun a =>
+    if a.reachable then a.kind == .read || (a.kind == .write && lazy.contains r.name)
+    else a.kind == .read || registrationAPIs.contains a.fn)
+
+inductive GClass | selfSync | mutexGuarded | immutable | registry | bad
+  deriving DecidableEq, Repr
+
+def globalClass (lazy : List String) (r : GlobalRow) : GClass :=
+  if r.selfSync then .selfSync else if oneGuard r then .mutexGuarded else if neverWritten r then .immutable
+  else if registryOK lazy r then .registry else .bad
+
+/-- package-level variables whose reachable write is a nil-guarded re-initialisation of an initialised variable -/
+def lazyGlobals (t : List SharedWrite) : List String :=
+  t.filterMap (fun w => match w with
+    | .write _ _ _ _ root sync g _ =>
+      if (root = .global) && sync = .nilGuardInit then some g else none
+    | _ => none)
+
 end KinModel.Conc
